@@ -14,7 +14,8 @@ EXHAUSTIVE = {"quick": True, "thorough": True}
 RULE = ("exhaustive: every DAG on <=4 (quick) / <=5 (thorough) labelled nodes x every start node x every "
         "observed subset (active trails, d-connection to every end node); plus random DAGs up to 10 nodes with "
         "latent subsets, observed passed as list/set/tuple/single node, node names str/int/tuple/mixed incl. "
-        "falsy names 0 and ''; minimal d-separators for every non-adjacent pair; Markov blanket, moral graph, "
+        "falsy names 0 and ''; minimal d-separators for every non-adjacent pair, also for every DAG on <=4 nodes x "
+        "latent subsets (all; size<=2 at n=4 in quick; 2 random subsets per 5-node DAG in thorough); Markov blanket, moral graph, "
         "ancestral graph, local and global independence listings.  A case is non-trivial when the graph has "
         ">=1 edge; distinct = distinct (kind, graph, query) after canonicalisation")
 TRUSTED_BASE = ["networkx DiGraph storage (predecessors/successors/subgraph), dfs_preorder_nodes",
@@ -34,6 +35,22 @@ def cases(tier, seed):
             continue
         for edges in dags:
             out.append({"kind": "exh", "n": n, "edges": edges})
+    # exhaustive small scope with latent sets: minimal d-separators (latent replacement loop) for every
+    # DAG x latent subset x non-adjacent pair
+    for n in range(2, 5):
+        for edges in common.all_dags(n):
+            if not edges:
+                continue
+            subsets = [list(c) for r in range(1, n + 1) for c in itertools.combinations(range(n), r)]
+            if n == 4 and tier == "quick":
+                subsets = [c for c in subsets if len(c) <= 2]
+            out.append({"kind": "exhlat", "n": n, "edges": edges, "lats": subsets})
+    if tier == "thorough":
+        for edges in common.all_dags(5):
+            if len(edges) < 2:
+                continue
+            subsets = [sorted(rng.sample(range(5), rng.randint(1, 3))) for _ in range(2)]
+            out.append({"kind": "exhlat", "n": 5, "edges": edges, "lats": subsets})
     # random larger graphs
     nrand = 150 if tier == "quick" else 1500
     for i in range(nrand):
@@ -196,7 +213,16 @@ def run_minsep(case, drv, g, names, nodes, lat):
             base = drv.call("c08_minsep", [nodes, edges, lat, x, y, []])
             cand.add(tuple(sorted(base[0])))
             if tuple(sep) not in cand:
-                pa = sorted({u for (u, v) in eset if v in (x, y)} | set(sep))
+                # every candidate member of the initial separator (parents, or ancestors that replace latent
+                # parents) lies among the proper ancestors of x and y
+                anc, todo = set(), [x, y]
+                while todo:
+                    w = todo.pop()
+                    for (u, v) in eset:
+                        if v == w and u not in anc:
+                            anc.add(u)
+                            todo.append(u)
+                pa = sorted((anc | set(sep)) - {x, y})
                 for perm in itertools.islice(itertools.permutations(pa), 720):
                     m = drv.call("c08_minsep", [nodes, edges, lat, x, y, list(perm)])
                     cand.add(tuple(sorted(m[0])))
@@ -264,8 +290,11 @@ def run_indep(case, drv, g, names, nodes, lat, include_latents):
         rest = [v for v in vis if v != start]
         for r in range(len(rest)):
             for Z in itertools.combinations(rest, r):
+                # the model's asserted set (proved = visible nodes d-separated from start, C08_independencies)
+                sepd = set(drv.call("c08_dsep", [nodes, edges, lat, include_latents, start, list(Z)]))
                 act = model_atn(drv, nodes, edges, start, Z)
-                sepd = set(rest) - set(Z) - act
+                if sepd != set(rest) - set(Z) - act:
+                    return bad("model-inconsistent:dsep_vars", {"start": start, "Z": list(Z), "lat": lat})
                 if sepd:
                     exp.add((frozenset([start]), frozenset(sepd), frozenset(Z)))
     if got != exp:
@@ -323,7 +352,22 @@ def run_rand(case, drv):
               tags=tags)
 
 
+def run_exhlat(case, drv):
+    n = case["n"]
+    for lat in case["lats"]:
+        sub = {"kind": "exh", "n": n, "edges": case["edges"], "lat": lat}
+        g, names, nodes = build(sub)
+        b = run_minsep(sub, drv, g, names, nodes, lat)
+        if b:
+            b["detail"] = {"lat": lat, "inner": b.get("detail")}
+            return b
+    return ok(nontrivial=True, key=common.canon_key(["exhlat", n, sorted(map(tuple, case["edges"]))]),
+              tags=["exhlat n=%d" % n, "latent-sets=%d" % len(case["lats"])])
+
+
 def run_case(case, drv):
     if case["kind"] == "exh":
         return run_exh(case, drv)
+    if case["kind"] == "exhlat":
+        return run_exhlat(case, drv)
     return run_rand(case, drv)
